@@ -71,7 +71,7 @@ Print Assumptions C12_restart_cfg_ok.
 
 Theorem C12_restart_reset : forall file cB,
   sub_changed (wanted cB) file = true ->
-  loaded_cfg file cB = set_sub cB (wanted cB) /\ forall saved, restart_state file cB saved = init (loaded_cfg file cB).
+  loaded_cfg file cB = set_sub cB (wanted cB) /\ forall saved, restart_state file cB [] saved = init (loaded_cfg file cB).
 Proof. exact restart_reset. Qed.
 Print Assumptions C12_restart_reset.
 
@@ -87,10 +87,10 @@ Print Assumptions C12_reply_config_any_state.
 
 (* ... hence after a restart on any lease file, with any restored leases, the replies carry cB's values
    (the want_* accessors read the configuration fields of cB, which loaded_cfg leaves untouched). *)
-Theorem C12_restart_reply_config : forall file cB saved h t m r,
+Theorem C12_restart_reply_config : forall file cB pre saved h t m r,
   c_nfip cB = c_hostip cB ->
   let cL := loaded_cfg file cB in
-  In t (trace cL (restart_state file cB saved) h) -> op_msg (t_op t) = Some m -> t_reply t = Some r ->
+  In t (trace cL (restart_state file cB pre saved) h) -> op_msg (t_op t) = Some m -> t_reply t = Some r ->
   c12_config cL (t_pre t) m r = true /\ c12_mask_first r = true.
 Proof. exact restart_reply_config. Qed.
 Print Assumptions C12_restart_reply_config.
@@ -186,3 +186,17 @@ Theorem C12_clause_destination : forall c s h t m r,
   (r_dstmac r, r_dstip r) = if (m_src m =? 0) || m_bflag m then (mac_bcast, ip_bcast) else (m_chaddr m, m_src m).
 Proof. exact reply_destination. Qed.
 Print Assumptions C12_clause_destination.
+
+(* the fixed BOOTP header of every reply (compared field by field with the reply bytes on every run) *)
+Theorem C12_header_constants : forall t m,
+  let h := reply_header t m in h_op h = 2 /\ h_htype h = 1 /\ h_hlen h = 6 /\ h_hops h = 0 /\ h_cookie h = 1669485411.
+Proof. exact header_constants. Qed.
+Print Assumptions C12_header_constants.
+Theorem C12_header_cleared : forall t m,
+  let h := reply_header t m in h_secs h = 0 /\ h_flags h = 0 /\ h_siaddr h = 0 /\ h_giaddr h = 0 /\ h_zeroed h = true.
+Proof. exact header_cleared. Qed.
+Print Assumptions C12_header_cleared.
+Theorem C12_header_ciaddr : forall t m,
+  h_ciaddr (reply_header t m) = match t with RNak => 0 | _ => m_ciaddr m end.
+Proof. exact header_ciaddr. Qed.
+Print Assumptions C12_header_ciaddr.
